@@ -106,11 +106,21 @@ def make_functions(beh, ids, sched=None, state=None):
     return player, extractor, comparator
 
 
+def make_data_extractor(beh, ids):
+    """the optional comparison_data_extractor: extra comparator arguments taken from the recording; it may fail too"""
+    def data_extractor(recording):
+        k = ids.index(recording.id) + 1
+        if beh[k - 1] == 'dataRaises':
+            raise LookupError('scripted comparison data extractor failure')
+        return {}
+    return data_extractor
+
+
 def run_inprocess(beh, keep_results):
     from playback.studio.equalizer import Equalizer, CompareExecutionConfig
     ids = ['Cat/r%d' % (k + 1) for k in range(len(beh))]
     player, extractor, comparator = make_functions(beh, ids)
-    eq = Equalizer(iter(ids), player, extractor, comparator,
+    eq = Equalizer(iter(ids), player, extractor, comparator, comparison_data_extractor=make_data_extractor(beh, ids),
                    compare_execution_config=CompareExecutionConfig(keep_results_in_comparison=keep_results,
                                                                    compare_in_dedicated_process=False))
     return [project(c, ids) for c in eq.run_comparison()]
@@ -194,7 +204,7 @@ def run_inprocess_real(beh, keep_results):
         if b == 'bare':
             return EqualityStatus.Equal if same else EqualityStatus.Different
         return ComparatorResult(EqualityStatus.Equal if same else EqualityStatus.Different)
-    eq = Equalizer(iter(ids), player, extractor, comparator,
+    eq = Equalizer(iter(ids), player, extractor, comparator, comparison_data_extractor=make_data_extractor(beh, ids),
                    compare_execution_config=CompareExecutionConfig(keep_results_in_comparison=keep_results,
                                                                    compare_in_dedicated_process=False))
     out = []
@@ -278,6 +288,7 @@ def run_dedicated(beh, rate, stop, late_wins, keep_results, abandon='close', max
                 me.kill_requested = False
                 raise Killed()
         eq = eqm.Equalizer(iter(ids), safe_player, extractor, comparator,
+                           comparison_data_extractor=make_data_extractor(beh, ids),
                            compare_execution_config=eqm.CompareExecutionConfig(
                                keep_results_in_comparison=keep_results, compare_in_dedicated_process=True,
                                compare_process_recycle_rate=rate, compare_process_timeout=TIMEOUT))
